@@ -39,9 +39,11 @@ import time
 import traceback
 
 from ..impl import c13_cfg as cfgk
+from ..impl import c13_str as strk
 from ..translate import c13 as tr
 from ..translate import c13raise as tr_raise
 from ..translate import c13imports as tr_imp
+from ..translate import c13regex as tr_rx
 
 PROPERTY = "C13"
 THEOREM_MODULE = "NemoVerif.Theorems.C13"
@@ -69,12 +71,14 @@ ASSUMPTIONS = [
 ]
 SERIAL = False
 ERR_TIMEOUT = float(os.environ.get("VERIF_C13_TIMEOUT", "10"))
+N_STR_QUICK = int(os.environ.get("VERIF_C13_NSTR", "500"))
 
 
 def translate():
     info = tr.run()
     info["raise_sites"] = tr_raise.run()
     info.update(tr_imp.run())
+    info["regexes"] = tr_rx.run()
     return info
 
 
@@ -891,6 +895,25 @@ def mutate_text(rng, s):
     return "".join(rng.choice(SOUP) for _ in range(rng.randrange(1, 40)))
 
 
+def mutate_quote(rng, s):
+    """one quote character removed / doubled / replaced by the other kind / a backslash put in front: unterminated, mis-nested and
+    re-paired strings (what is left of the line, often 30-200 characters, is what a matcher has to give up on)"""
+    pos = [i for i, ch in enumerate(s) if ch in "\"'"]
+    if not pos:
+        return mutate_text(rng, s)
+    i = rng.choice(pos)
+    r = rng.random()
+    if r < 0.45:
+        return s[:i] + s[i + 1:]
+    if r < 0.6:
+        return s[:i] + s[i] + s[i:]
+    if r < 0.8:
+        return s[:i] + ("'" if s[i] == '"' else '"') + s[i + 1:]
+    if r < 0.9:
+        return s[:i] + "\\" + s[i:]
+    return s[:i] + s[i] * 3 + s[i + 1:]
+
+
 EXC_CLASSES = ["Exception", "ValueError", "KeyError", "AssertionError", "IndexError", "SyntaxError", "UnicodeError", "RecursionError",
                "DedentError", "UnexpectedToken", "UnexpectedCharacters", "UnexpectedEOF", "VisitError", "BaseOnly"]
 ATTR_VALUES = ["missing", None, 0, 1, 2, 3, 4, 7, -1, -2, -9, True, {"other": "str"}, {"other": "float"}]
@@ -951,6 +974,18 @@ def gen_cases(rng, tier):
         # whole configuration directories: several .co files + config.yml + imports (repeated, circular, missing, standard
         # library, local modules), Colang 2.x and 1.0, each with an edit that cannot change the meaning
         cases.append(cfgk.gen_cfg_case(rng))
+    for _ in range(N_STR_QUICK if quick else 3000):
+        # every string form (STRING / LONG_STRING of either quote kind, single- and multi-line, escapes, lone quotes of the other kind,
+        # `#`, interpolations, long line tails) in every position where a string may stand, loaded under a CPU-time limit
+        cases.append(strk.gen_str_case(rng))
+    for _ in range(300 if quick else 3000):
+        # back-tracking candidates: one short text repeated 30-60 times + a character that ends it, in every kind of place a line can
+        # stand (2.x and 1.0); the bodies of the repeats the static scan flagged are among the repeated texts
+        cases.append(strk.gen_pump_case(rng, tr_rx.flagged_bodies()))
+    for _ in range(200 if quick else 2000):
+        # error path aimed at the string forms: one quote character of such a program removed / doubled / swapped / escaped (unterminated
+        # and mis-nested strings with long line tails), loaded under the CPU-time limit
+        cases.append({"kind": "str", "text": mutate_quote(rng, strk.texts_of(strk.gen_str_case(rng))[0]), "vtext": None, "pump": True, "mut": "quote"})
     return cases
 
 
@@ -1018,11 +1053,11 @@ def canon_ast(x):
     return repr(x)
 
 
-def parse_real(content, version):
+def parse_real(content, version, strip_calls=None):
     from nemoguardrails.colang import parse_colang_file
 
     try:
-        with contextlib.redirect_stdout(io.StringIO()):
+        with contextlib.redirect_stdout(io.StringIO()), (strk.recording_strip(strip_calls) if strip_calls is not None else contextlib.nullcontext()):
             r = parse_colang_file("f.co", content=content, version=version)
         c = canon_ast(r)
         n = len(c.get("flows", []) or []) + len(c.get("user_messages", {}) or {}) + len(c.get("bot_messages", {}) or {})
@@ -1114,7 +1149,9 @@ def run_layout_v2(content, edits, want_ast):
         obs["pre"] = [pre_real(content), pre_real(econtent)]
         obs["pre_in"] = [content.split("\n"), econtent.split("\n")]
     if want_ast:
-        obs["ast"] = parse_real(content, "2.x")
+        # every call the transformer's comment stripper receives on the original goes to the Lean scanner too (CommentStrip)
+        obs["strip"] = []
+        obs["ast"] = parse_real(content, "2.x", obs["strip"])
         obs["east"] = parse_real(econtent, "2.x")
         obs["etext_tail"] = econtent[-160:]
     return obs
@@ -1461,6 +1498,13 @@ def run_impl(case):
         return run_fmt(case)
     if k == "cfg":
         return cfgk.run_cfg(case, canon_ast)
+    if k == "str":
+        obs = strk.run_str(case, canon_ast)
+        if obs.get("base", {}).get("outcome") == "ok":
+            # which string-like terminals the real lexer produced (coverage tags `str-term:*`)
+            st = real_stream(expanded_text(obs["text"]) + "\n")
+            obs["terms"] = sorted({t[1] for t in st.get("ok", []) if t[0] == "b" and t[1] in tr_rx.STRING_LIKE | {"COMMENT"}})
+        return obs
     raise ValueError(k)
 
 
@@ -1500,6 +1544,8 @@ def model_requests(case, obs):
     k = case["kind"]
     if k == "cfg":
         return cfgk.model_requests_cfg(case, obs)
+    if k == "str":
+        return strk.model_requests_str(case, obs)
     if obs.get("sweep"):
         return []
     if obs.get("version") == "2.x" and k in ("tok", "v2", "file"):
@@ -1518,6 +1564,7 @@ def model_requests(case, obs):
             if len(edits) == 1 and edits[0]["op"] == "scale" and scale_text_py(obs["mtext"], edits[0]["k"]) == obs["metext"]:
                 # `text_layout_scale`: Lean's own `scaleText k` of the original text must be the edited text and scan to its pieces
                 reqs.append({"m": "C13.textseg", "text": obs["mtext"], "k": edits[0]["k"], "toks": token_table(obs["mepieces"])})
+        reqs += [{"m": "C13.strip", "text": c["in"]} for c in obs.get("strip", [])]  # always last
         return reqs
     if obs.get("version") == "1.0" and k in ("v1", "file"):
         if not HAVE_NUMBERED:
@@ -1621,8 +1668,16 @@ def compare(case, obs, mouts):
     k = case["kind"]
     if k == "cfg":
         return cfgk.compare_cfg(case, obs, mouts)
+    if k == "str":
+        return strk.compare_str(case, obs, _unsafe(mouts))
     mouts = _unsafe(mouts)
     if obs.get("version") == "2.x" and k in ("tok", "v2", "file"):
+        ns = len(obs.get("strip", []))
+        if ns and len(mouts) >= ns and all("steps" in m for m in mouts[-ns:]):
+            d = strk.compare_calls(obs["strip"], mouts[-ns:])
+            if d:
+                return d
+            mouts = mouts[:-ns]
         if mouts and "text" in mouts[-1]:
             m = mouts[-1]
             mouts = mouts[:-1]
@@ -1709,6 +1764,8 @@ def oracle(case, obs):
     k = case["kind"]
     if k == "cfg":
         return cfgk.oracle_cfg(case, obs)
+    if k == "str":
+        return strk.oracle_str(case, obs)
     if obs.get("sweep"):
         b = obs.get("bad") or obs.get("known_bad")
         if b:
@@ -1826,6 +1883,8 @@ def signature(case, obs, msg):
     k = case["kind"]
     if k == "cfg":
         return cfgk.signature_cfg(case, obs, msg)
+    if k == "str":
+        return strk.signature_str(case, obs, msg)
     if obs.get("sweep"):
         return "eol-comment-pre-expansion-v2" if obs.get("known_bad") and not obs.get("bad") else None
     if k in ("err", "fmt") and obs.get("outcome") == "raised":
@@ -1862,6 +1921,8 @@ def nontrivial(case, obs):
     k = case["kind"]
     if k == "cfg":
         return obs["base"]["outcome"] == "ok" and len(obs["base"].get("parsed", [])) >= 2 or obs["base"]["outcome"] == "raised"
+    if k == "str":
+        return strk.nontrivial_str(case, obs)
     if obs.get("sweep"):
         return obs.get("tried", 0) > 0
     if k == "tok":
@@ -1877,6 +1938,8 @@ def tags(case, obs):
     k = case["kind"]
     if k == "cfg":
         return cfgk.tags_cfg(case, obs)
+    if k == "str":
+        return strk.tags_str(case, obs)
     t = ["kind:" + k + (":" + obs["version"] if "version" in obs and k == "file" else "")]
     if obs.get("sweep"):
         t.append("sweep-variants:%d" % (obs.get("tried", 0) // 50 * 50))
@@ -1920,6 +1983,10 @@ def shrink(case):
         # that still hangs costs the whole CPU limit
         import itertools
         yield from itertools.islice(cfgk.shrink_cfg(case), 12)
+        return
+    if k == "str":
+        import itertools
+        yield from itertools.islice(strk.shrink_str(case), 12)
         return
     if k == "file" and not case.get("sweep"):
         # explicit form: the same source with the edits spelled out (then the edits and the text can be shrunk)
@@ -2044,4 +2111,9 @@ def escalate(rng, focus, tier):
         cases.append({"kind": "v1", "src": {"text": gen_v1_comment_program(rng)},
                       "edits": [gen_edit_v1(rng, aim="comment") for _ in range(rng.choice([1, 1, 2]))]})
     cases = [cfgk.gen_cfg_case(rng) for _ in range(400)] + cases
+    cases = [strk.gen_str_case(rng) for _ in range(400)] + cases
+    nb = tr_rx.flagged_bodies(only_new=True)
+    if nb:
+        # a new / changed regex with a back-tracking shape: inputs aimed at that very repeat come first
+        cases = [strk.gen_pump_case(rng, nb * 20) for _ in range(300)] + cases
     return comment_sweep_cases() + cont_sweep_cases() + pre_sweep_cases() + cases
